@@ -145,7 +145,8 @@ func rule042(r *core.Run) {
 		for _, g := range core.GuardsOf(st) {
 			gs := r.P.SliceOf(g.If.Cond, core.SliceOpts{Depth: -1})
 			cd := core.CondOf(g.If.Cond)
-			if gs.Has("field:gofakes3.ObjectList.NextMarker") && gs.Has("const:") && cd.Op == token.NEQ && g.Branch != cd.Neg {
+			if eq, ok := g.Equality(); gs.Has("field:gofakes3.ObjectList.NextMarker") && gs.Has("const:") && ok && !eq {
+				_ = cd
 				okArm = true
 			}
 		}
@@ -261,7 +262,8 @@ func rule044(r *core.Run) {
 			for _, g := range core.GuardsOf(c) {
 				gs := r.P.SliceOf(g.If.Cond, core.SliceOpts{Depth: -1})
 				cd := core.CondOf(g.If.Cond)
-				if gs.Has("call:goskipiter.(*Iterator).Key") && gs.Has("field:gofakes3.ListBucketPage.Marker") && cd.Op == token.EQL && g.Branch != cd.Neg {
+				if eq, ok := g.Equality(); gs.Has("call:goskipiter.(*Iterator).Key") && gs.Has("field:gofakes3.ListBucketPage.Marker") && ok && eq {
+					_ = cd
 					skip = c
 				}
 			}
@@ -403,7 +405,7 @@ func rule045(r *core.Run) {
 		gs := r.P.SliceOf(g.If.Cond, core.SliceOpts{Depth: -1})
 		cd := core.CondOf(g.If.Cond)
 		truth := g.Branch != cd.Neg
-		if gs.Has("interr:PaginationNotImplemented") && cd.Op == token.EQL && truth && gs.HasValue(first) {
+		if eq, ok := g.Equality(); gs.Has("interr:PaginationNotImplemented") && ok && eq && gs.HasValue(first) {
 			errEq = true
 		}
 		if gs.Has("field:gofakes3.GoFakeS3.failOnUnimplementedPage") && !truth {
